@@ -115,10 +115,7 @@ def run(chk):
     chk.extra['small_world'] = {'configurations': len(rows)}
     chk.exhaustive = True
     small, wide = (_c13_small, _c13_wide) if pid == 'C13' else (_c14_small, _c14_wide)
-    obs = []
-    for part in core.parallel_map(small, [(row, pid, tier, i) for i, row in enumerate(rows)], chunksize=1):
-        obs += part
     n = (400 if tier == 'quick' else 8000)
-    for part in core.parallel_map(wide, [(chk.seed * 1000 + i, pid, n // core.NPROC + 1) for i in range(core.NPROC)]):
-        obs += part
-    return obs
+    per = max(1, n // (core.NPROC * (1 if tier == 'quick' else 8)))
+    wjobs = [(chk.seed * 1000 + i, pid, per) for i in range(n // per)]
+    return core.stream(small, [(row, pid, tier, i) for i, row in enumerate(rows)], wide, wjobs, tier, step=64, chunksize=1)
